@@ -28,6 +28,7 @@ def run(chk):
     r_set(chk, prog, m)
     r_ctor(chk, prog, m)
     r6(chk, prog, m)
+    r7(chk, prog, m)
     chk.undecided_clauses += [
         "contents of the string after arbitrary set histories (byte-level model comparison is value-level)",
         "R5 treats the inline area's capacity symbolically (>= len + 1 and >= sizeof(void*)), as established by the constructor rule",
@@ -378,3 +379,119 @@ def r6(chk, prog, m):
     else:
         chk.proven(rid, "equality/copy/serialization", "strlen on string data", "json_object.c", "no strlen in these functions")
     chk.floor(rid, n, 4, "length-aware consumers")
+
+
+# ---------------------------------------------------------------------------
+# R7 the sign-encoded length is decoded before it is used as a length
+def _sign_ctx(f, P, conds, lpath):
+    """'neg' / 'nonneg' / None from a list of (cmp, truth) conditions about the location lpath"""
+    for c, tr in conds:
+        if getattr(c, "op", None) != "icmp":
+            continue
+        a, b = c.ops
+        if a.kind != "reg" or b.kind != "int":
+            continue
+        if P.path(a) != lpath:
+            continue
+        pred = c.x["pred"]
+        if b.v == 0 and pred in ("slt", "sge"):
+            return "neg" if (pred == "slt") == tr else "nonneg"
+        if b.v == -1 and pred in ("sgt", "sle"):
+            return "nonneg" if (pred == "sgt") == tr else "neg"
+    return None
+
+
+def _edge_conds(f, pred_block, succ_block):
+    from ..flow import _flatten_cond
+    out = list(dominating_conditions(f, pred_block))
+    t = pred_block.term
+    if t.op == "br" and len(t.x["targets"]) == 2 and t.ops and t.x["targets"][0] != t.x["targets"][1]:
+        truth = f.blocks[t.x["targets"][0]] is succ_block
+        out += _flatten_cond(f, t.ops[0], truth)
+    return out
+
+
+def r7(chk, prog, m):
+    rid = "C11.R7"
+    chk.rule(rid, "a string node's length field is sign-encoded (negative = separately allocated block): every value read from it is "
+                  "used only in a sign test, a zero test, or after decoding (negated where len < 0 is known, as is where len >= 0 is "
+                  "known); it never reaches a comparison, an argument, arithmetic or a return while still encoded")
+    n = 0
+    for f in [g for g in m.functions.values() if not g.is_decl]:
+        P = None
+        cfg = None
+        for ld in f.instrs():
+            if ld.op != "load" or not _is_string_obj(f, ld.ops[0]):
+                continue
+            if P is None:
+                P = Paths(f, prog)
+                cfg = cfg_of(f)
+            lpath = P.path(ld.ops[0])
+            if not lpath.endswith("->len") and not lpath.endswith(".len"):
+                continue
+            n += 1
+            chk.touched(f)
+            bad = []
+            seen = set()
+
+            def visit(v, kind):
+                if (v, kind) in seen:
+                    return
+                seen.add((v, kind))
+                for u in cfg.users(v):
+                    if u.op == "phi":
+                        escaped = False
+                        for val, lab in u.x["incoming"]:
+                            if val.kind == "reg" and val.v == v:
+                                ctx = _sign_ctx(f, P, _edge_conds(f, f.blocks[lab], u.block), lpath)
+                                if not ((kind == "raw" and ctx == "nonneg") or (kind == "neg" and ctx == "neg")):
+                                    escaped = True
+                        if escaped:
+                            visit(u.res, kind)
+                        continue
+                    conds = dominating_conditions(f, u.block)
+                    ctx = _sign_ctx(f, P, conds, lpath)
+                    if u.op == "select":
+                        c = u.ops[0]
+                        from ..flow import _flatten_cond
+                        arms = []
+                        if u.ops[1].kind == "reg" and u.ops[1].v == v:
+                            arms.append(True)
+                        if u.ops[2].kind == "reg" and u.ops[2].v == v:
+                            arms.append(False)
+                        esc = False
+                        for truth in arms:
+                            actx = _sign_ctx(f, P, _flatten_cond(f, c, truth), lpath) or ctx
+                            if not ((kind == "raw" and actx == "nonneg") or (kind == "neg" and actx == "neg")):
+                                esc = True
+                        if esc:
+                            visit(u.res, kind)
+                        continue
+                    if (kind == "raw" and ctx == "nonneg") or (kind == "neg" and ctx == "neg"):
+                        continue      # decoded here
+                    if u.op == "icmp" and kind == "raw":
+                        other = u.ops[1] if (u.ops[0].kind == "reg" and u.ops[0].v == v) else u.ops[0]
+                        if other.kind == "int" and other.v == 0 and u.x["pred"] in ("eq", "ne", "slt", "sge"):
+                            continue
+                        if other.kind == "int" and other.v == -1 and u.x["pred"] in ("sgt", "sle"):
+                            continue
+                        bad.append((u, "compared (%s) while still sign-encoded" % u.x["pred"]))
+                        continue
+                    if u.op == "sub" and u.ops[0].kind == "int" and u.ops[0].v == 0 and kind == "raw":
+                        visit(u.res, "neg")
+                        continue
+                    if u.op in ("sext", "zext", "trunc", "bitcast"):
+                        visit(u.res, kind)
+                        continue
+                    bad.append((u, "used by %s while still sign-encoded" % (u.op if u.op != "call" else "a call to %s" % (u.callee or "a function pointer"))))
+
+            visit(ld.res, "raw")
+            sig = "read of %s" % lpath
+            if bad:
+                u, why = bad[0]
+                chk.refuted(rid, f.name, sig, ld.locstr(),
+                            "the length field read here is %s at %s: for a string whose bytes live in the separately allocated block the "
+                            "field holds minus the length" % (why, u.locstr()), {"uses": ["%s: %s" % (x.locstr(), y) for x, y in bad]})
+            else:
+                chk.proven(rid, f.name, sig, ld.locstr(), "only sign / zero tests and decoded uses")
+    chk.floor(rid, n, 6, "reads of the string length field")
